@@ -24,6 +24,17 @@ const (
 //verif:guarded HTTPGroupController mu groups
 //verif:guarded HTTPGroup mu group groupKey domain location routeByHTTPUser createFuncs pxyNames closed
 
+// C16 "mutexes around every shared map": every method of these types (and every
+// function literal inside them), whether or not it has a contract of its own,
+// is swept for accesses to the guarded fields without the lock.
+//
+//verif:sweep-type TCPGroupCtl props=C16 kinds=lock
+//verif:sweep-type TCPGroup props=C16 kinds=lock
+//verif:sweep-type TCPMuxGroupCtl props=C16 kinds=lock
+//verif:sweep-type TCPMuxGroup props=C16 kinds=lock
+//verif:sweep-type HTTPGroupController props=C16 kinds=lock
+//verif:sweep-type HTTPGroup props=C16 kinds=lock
+
 // Monitor invariant of the tcp group table: the map exists; every registered
 // group is wired to this controller.
 //
